@@ -497,6 +497,9 @@ static void check_transition(const Regime& rg, const std::vector<int>& h2, const
         if (it->state != p.state) diff("state");
         if (it->r0 != p.r0 || it->rw != p.rw || it->S != p.S) diff("r0-rw-skin");
     }
+    if (!keptP.empty()) R->count("c_transitions_with_untargeted_connections_checked");
+    if (keptP.size() < P.conns.size()) R->count("c_transitions_with_targeted_connections");
+    if (C.conns.size() > P.conns.size()) R->count("c_transitions_adding_connections");
     for (const auto& c : C.conns) for (const OC* p : keptP) if (p->k == c.k && p->i == c.i && p->j == c.j) keptC.push_back(p);
     if (keptC != keptP) R->violation(pre + "untargeted-order", "relative order of the untargeted connections changes" + ctx, rp);
     // ---- agreement with the reference model (targeted and new connections, count, order)
@@ -589,6 +592,7 @@ static void part_c() {
 
 static void replay_c(const std::string& cs) {
     std::istringstream ss(cs); std::string part, rn; ss >> part >> rn; std::vector<int> h; int x; while (ss >> x) h.push_back(x);
+    if (h.empty()) return;
     for (const auto& rg : regimes()) if (rn == rg.name) {
         Env env = make_env(units()[rg.unit], 2, 2, layers(), 4);
         std::vector<int> hp(h.begin(), h.end() - 1);
